@@ -411,7 +411,10 @@ pub fn mutate_doc(rng: &mut Rng, doc: &Value, other_names: &[String], cells: &mu
             11 => {
                 // body is not an object
                 if let Some(k) = key {
-                    o.insert(k, rng.pick(&[json!(null), json!([]), json!("x"), json!(3)]).clone());
+                    // (one of them: the argument values as a sequence, in declaration order as far
+                    // as the document tells)
+                    let seq = o.get(&k).and_then(|b| b.as_object()).map(|b| Value::Array(b.values().cloned().collect())).unwrap_or(json!([]));
+                    o.insert(k, rng.pick(&[json!(null), json!([]), json!("x"), json!(3), seq.clone(), seq]).clone());
                     cells.push("body_not_object");
                 }
             }
